@@ -1126,7 +1126,9 @@ ws_read_cb(void *arg)
 		// For message mode, also check to make sure that the overall
 		// length of the message has not exceeded our recvmax.
 		// (Protect against an infinite stream of small messages!)
-		if ((!ws->isstream) && (ws->recvmax > 0)) {
+		if ((!ws->isstream) && (ws->recvmax > 0) &&
+		    ((frame->op == WS_CONT) || (frame->op == WS_TEXT) ||
+		        (frame->op == WS_BINARY))) {
 			size_t    totlen = frame->len;
 			ws_frame *fr2;
 			NNI_LIST_FOREACH (&ws->rxq, fr2) {
